@@ -28,6 +28,32 @@ type mockTree struct {
 	failErr error
 	ncalls  int
 	leafref map[string]string // canonical path → canonical target path for FollowLeafRef
+	hash    bool              // deterministic hash-valued tree shared with the Lean driver (Drv/C02.lean)
+}
+
+func hashStr(s string) uint32 {
+	var h uint64 = 7
+	for i := 0; i < len(s); i++ {
+		h = (h*31 + uint64(s[i])) % 4294967296
+	}
+	return uint32(h)
+}
+
+func hashValue(p *sdcpb.Path) mockVal {
+	if p == nil || len(p.Elem) == 0 {
+		return mockVal{Kind: "leaf", S: "root"}
+	}
+	last := p.Elem[len(p.Elem)-1].Name
+	h := hashStr(canonPath(p)) % 1000
+	switch {
+	case strings.HasPrefix(last, "ll"):
+		return mockVal{Kind: "ll", L: []string{fmt.Sprint(h % 7), fmt.Sprintf("w%d", h)}}
+	case strings.HasPrefix(last, "ab"):
+		return mockVal{Kind: "absent"}
+	case strings.HasPrefix(last, "n"):
+		return mockVal{Kind: "leaf", S: fmt.Sprint(h % 50)}
+	}
+	return mockVal{Kind: "leaf", S: fmt.Sprintf("v%d", h)}
 }
 
 type mockEntry struct {
@@ -77,6 +103,9 @@ func (e *mockEntry) Navigate(path *sdcpb.Path) (xpath.Entry, error) {
 }
 
 func (e *mockEntry) lookup() mockVal {
+	if e.t.hash {
+		return hashValue(e.path)
+	}
 	if e.t.byPath != nil {
 		if v, ok := e.t.byPath[canonPath(e.path)]; ok {
 			return v
